@@ -290,6 +290,15 @@ pub fn run(ctx: &Ctx) -> i32 {
       }
     }
   }
+  let mut extra = Map::new();
+  if let Some(w) = ctx.findings.witness(KF2) {
+    let (n, lon, lat) = (w["nside"].as_u64().unwrap_or(2) as u32, w["lon"].as_f64().unwrap_or(0.0), w["lat"].as_f64().unwrap_or(1.2));
+    let still = !matches!(check_pos(n, lon, lat, false, &mut Part::new()), V::Ok);
+    if !still {
+      eprintln!("[hpxmc] NOTE: the recorded witness of known finding KF-2 no longer fails on this tree");
+    }
+    extra.insert("kf2_witness_still_fails".into(), json!(still));
+  }
   finish(
     ctx,
     total,
@@ -297,7 +306,7 @@ pub fn run(ctx: &Ctx) -> i32 {
       "large_nside_cells": "first/last cells, cap/equator boundaries, boundaries of ~50 rings"}),
     "all cells of the exhaustive nsides; the class cells of the listed large nsides; rejection of out-of-range arguments",
     vec!["exact RING order model R3 and projection R1".into(), "positions matching the known finding KF-2 (polar-cap seams) are reported as KNOWN-FINDING for ring::hash / ring::hash_with_dxdy only".into()],
-    Map::new(),
+    extra,
   )
 }
 
